@@ -452,7 +452,7 @@ impl TestCaseConfig {
                 output.push(format!(
                     "wait: {{timeout: {}, path: {}}}",
                     duration,
-                    path.to_string_lossy(),
+                    yaml_flow_scalar(&path.to_string_lossy(), false),
                 ))
             } else {
                 output.push(format!("wait: {}", duration))
@@ -461,8 +461,11 @@ impl TestCaseConfig {
         if !self.environment.is_empty() {
             let mut envvars = vec![];
             for (key, value) in self.environment.iter() {
-                // TODO: this will bereak break if the value contains double quotes => use `quote-string` crate?
-                envvars.push(format!("{}: \"{}\"", key, value))
+                envvars.push(format!(
+                    "{}: {}",
+                    yaml_flow_scalar(key, false),
+                    yaml_flow_scalar(value, true)
+                ))
             }
             output.push(format!("environment: {{{}}}", envvars.join(", ")));
         }
@@ -479,6 +482,23 @@ impl Display for TestCaseConfig {
     fn fmt(&self, f: &mut fmt::Formatter<'_>) -> fmt::Result {
         let out = serde_json::to_string(&self).map_err(|_| std::fmt::Error)?;
         write!(f, "{}", out)
+    }
+}
+
+/// Renders a string so that it can be embedded in a YAML flow mapping: either as a
+/// plain scalar, where that is unambiguous, or as a double quoted scalar (every JSON
+/// string is a valid, properly escaped, double quoted YAML scalar).
+fn yaml_flow_scalar(value: &str, always_quote: bool) -> String {
+    let is_plain = !value.is_empty()
+        && value
+            .chars()
+            .all(|c| c.is_ascii_alphanumeric() || matches!(c, '_' | '-' | '.' | '/'))
+        && !value.starts_with('-')
+        && !matches!(value, "null" | "true" | "false");
+    if is_plain && !always_quote {
+        value.to_string()
+    } else {
+        serde_json::to_string(value).unwrap_or_else(|_| format!("{:?}", value))
     }
 }
 
